@@ -172,6 +172,20 @@ def do(op: dict) -> str:
         ext = np.array(list(itertools.product(*[range(a - 2, b + 3) for a, b in zip(mins, maxs)])), dtype=np.int32)
         idx = np.asarray(jax.vmap(fn)(jnp.array(ext)))
         return "space=" + ";".join(",".join(str(int(x)) for x in r) for r in sp) + " idx=" + ",".join(str(int(x)) for x in idx)
+    if o == "matrices":
+        import re as _re
+        p = PROBLEMS[op["id"]]
+        try:
+            Pm, Rm = p.build_transition_and_reward_matrices(normalization_tolerance=float(Fraction(op["tol"])))
+        except ValueError as e:
+            mm = _re.search(r"state (\d+), action (\d+) sum to ([-0-9.eE+naif]+),", str(e))
+            if not mm:
+                return "error=ValueError unparsed=" + str(e)[:80].replace(" ", "_")
+            return f"error=ValueError state={mm.group(1)} action={mm.group(2)} rowsum6={mm.group(3)}"
+        Pm = np.asarray(Pm, dtype=np.float64); Rm = np.asarray(Rm, dtype=np.float64)
+        A, S, _ = Pm.shape
+        assert Rm.shape == (S, A)
+        return ("P=" + ";".join(fvals(Pm[a, s_]) for a in range(A) for s_ in range(S)) + " R=" + ";".join(fvals(Rm[s_]) for s_ in range(S)))
     if o == "semisweep":
         p = PROBLEMS[op["id"]]
         key = (op["id"], op["maxbs"], "semi", op.get("shuffle", 0), op.get("random_seed", 0))
